@@ -26,7 +26,7 @@ use serde_json::json;
 
 use super::{
     ffield::OutCmp,
-    repair::{repair, RepairStats},
+    repair::{repair, IdentityRow, Repair, RepairStats},
 };
 
 /// Semantic comparison of a forged output vector with the reference (`None` = the input is
@@ -186,6 +186,29 @@ impl<'a, O: Sem> AttackCtx<'a, O> {
         } else {
             rep.inconclusive(&format!("{name}: attack {label} candidate not confirmed: mock={mock:?} real={real:?}"));
         }
+    }
+
+    /// The identity row (multiplication / normalisation gate) that produces the emulated element
+    /// exposed on instance rows `out_rows`, with its auxiliary cells and partial derivatives.
+    pub fn identity_info(&self, input: &O::In, out_rows: std::ops::Range<usize>) -> Option<IdentityRow> {
+        let (honest, _) = self.tables(input)?;
+        let mut t = clone_tables(&honest);
+        let classes = t.copy_classes();
+        let mut z_classes: Vec<Vec<(usize, usize)>> = vec![];
+        for r in out_rows {
+            let members = classes.values().find(|m| m.contains(&CellRef::Instance(1, r)))?;
+            z_classes.push(
+                members
+                    .iter()
+                    .filter_map(|c| match c {
+                        CellRef::Advice(c, r) => Some((*c, *r)),
+                        _ => None,
+                    })
+                    .collect(),
+            );
+        }
+        let mut rp = Repair::new(&mut t, vec![], false);
+        rp.identity_row(&z_classes)
     }
 
     /// Forged-output / donor attacks.
